@@ -1018,6 +1018,7 @@ func genC10(c *Ctx) {
 	c.c10Words()
 	c.c10Truncations()
 	c.c10Vectors()
+	c.c10R8()
 	per := c.Scale(8, 60)
 	for _, n := range c10Names {
 		t := c10Types[n]
